@@ -140,6 +140,11 @@ type view struct {
 	// store under test) and are not chunk files: whatever their name looks like, they are
 	// abandoned temporary chunk files by provenance.
 	born map[string]bool
+	// blocked: files the operation cannot unlink (their directory carries the immutable flag
+	// while it runs). Verify with repair cannot remove them; what it must not do is say it did.
+	blocked map[string]bool
+	// claimed: chunk IDs for which Verify printed a "... : removed" line.
+	claimed map[string]bool
 }
 
 func (v view) sigName() string {
@@ -263,6 +268,19 @@ func judgePrune(v view, before, after snap, keep map[string]bool, pruneErr error
 	return &out
 }
 
+var reVerifyRemoved = regexp.MustCompile(`^chunk id ([0-9a-f]{64}) does not match its hash [0-9a-f]{64}: removed$`)
+
+// claimedRemoved extracts the chunk IDs Verify says it removed.
+func claimedRemoved(output string) map[string]bool {
+	ids := map[string]bool{}
+	for _, line := range strings.Split(output, "\n") {
+		if m := reVerifyRemoved.FindStringSubmatch(strings.TrimRight(line, "\r")); m != nil {
+			ids[m[1]] = true
+		}
+	}
+	return ids
+}
+
 var reVerifyMsg = regexp.MustCompile(`^chunk id ([0-9a-f]{64}) does not match its hash `)
 
 // reportedInvalid extracts the chunk IDs named in "does not match" lines of Verify's output.
@@ -312,6 +330,9 @@ func judgeVerify(v view, before, after snap, reported map[string]bool, repair bo
 		if altered {
 			out.add(sig("modified"), k)
 		}
+		if cl.Kind == kOwn && !gone && v.claimed[cl.ID] {
+			out.add(sig("claimed-removed-but-present"), k)
+		}
 		switch cl.Kind {
 		case kOwn:
 			bad := !contentMatches(cl.ID, []byte(before[k]), v.unc)
@@ -323,7 +344,7 @@ func judgeVerify(v view, before, after snap, reported map[string]bool, repair bo
 				if gone && !repair {
 					out.add(sig("removed-without-repair"), k)
 				}
-				if !gone && repair && complete {
+				if !gone && repair && complete && !v.blocked[k] {
 					out.add(incomplete("repair-left-invalid"), k)
 				}
 			} else {
